@@ -421,14 +421,16 @@ static void run_product_nonfinite(int kn, unsigned row, unsigned inner, unsigned
     if (!ref) { fprintf(stderr, "C09: out of memory\n"); exit(2); }
     for (size_t i = 0; i < nx; ++i) { X[i] = (double)vf_range(r, 1, 9); }
     for (size_t i = 0; i < ny; ++i) { Y[i] = (double)vf_range(r, 1, 9); }
-    XAT(i0, k0) = mode ? sgn * (double)INFINITY : sgn * H;
+    XAT(i0, k0) = mode == 2 ? 0.0 : mode ? sgn * (double)INFINITY : sgn * H;
     if (!mode) { YAT(k0, j0) = H; }
+    if (mode == 2) { YAT(k0, j0) = sgn * (double)INFINITY; } /* mode 2: an exact ZERO meets an infinity: the term 0 * inf is NaN, and so is Z(i0,j0) in any order of summation */
     for (unsigned i = 0; i < row; ++i)
     {
         for (unsigned j = 0; j < col; ++j)
         {
             double v;
-            if (i == i0 && (mode || j == j0)) { v = sgn * (double)INFINITY; }
+            if (mode == 2) { v = j != j0 ? 0 : i == i0 ? (double)NAN : sgn * (double)INFINITY; if (j != j0) { for (unsigned k = 0; k < inner; ++k) { v += XAT(i, k) * YAT(k, j); } } }
+            else if (i == i0 && (mode || j == j0)) { v = sgn * (double)INFINITY; }
             else if (i == i0) { v = sgn * H * YAT(k0, j); }
             else if (!mode && j == j0) { v = XAT(i, k0) * H; }
             else
@@ -442,7 +444,7 @@ static void run_product_nonfinite(int kn, unsigned row, unsigned inner, unsigned
     Xs = in_dup(X, nx);
     Ys = in_dup(Y, ny);
     snprintf(call, sizeof(call), "a_real_%s(row=%u,inner=%u,col=%u), entries 1..9 except X(%u,%u)=%s%s", kn_name[kn], row, inner, col, i0, k0, sgn < 0 ? "-" : "+",
-             mode ? "inf" : "1e200 and Y(k0,j0)=1e200");
+             mode == 2 ? "0 (and Y(k0,j0)=inf)" : mode ? "inf" : "1e200 and Y(k0,j0)=1e200");
     vf_log("%s (j0=%u)", call, j0);
     switch (kn)
     {
@@ -451,7 +453,17 @@ static void run_product_nonfinite(int kn, unsigned row, unsigned inner, unsigned
     case KN_MULMT: a_real_mulmT(row, col, inner, X, Y, Z.p); break;
     default: a_real_mulTT(row, inner, col, X, Y, Z.p); break;
     }
-    snprintf(key, sizeof(key), "%s", mode ? "entry-ne-product-with-infinite-entry" : "entry-ne-product-with-overflowing-term");
+    snprintf(key, sizeof(key), "%s", mode == 2 ? "entry-ne-product-with-zero-times-infinity" : mode ? "entry-ne-product-with-infinite-entry" : "entry-ne-product-with-overflowing-term");
+    if (mode == 2)
+    {
+        /* every NaN is the same answer (sign and payload of a generated NaN are not specified); a poisoned, never written cell stays what it is */
+        for (size_t i = 0; i < nz; ++i)
+        {
+            if (Z.p[i] != Z.p[i] && bits(Z.p[i]) != POISON_BITS) { Z.p[i] = frombits(0x7FF8000000000000ULL); }
+            if (ref[i] != ref[i]) { ref[i] = frombits(0x7FF8000000000000ULL); }
+        }
+        VF_COUNT("products-with-zero-times-infinity");
+    }
     judge(kn, cls, &Z, ref, row, col, call, key);
     judge_input(kn, cls, "X", X, Xs, nx, call);
     judge_input(kn, cls, "Y", Y, Ys, ny, call);
@@ -929,7 +941,7 @@ static void vf_case(uint64_t c, vf_rng *r)
             VF_COUNT("products-with-one-large-dimension");
             for (int kn = KN_MULMM; kn <= KN_MULTT; ++kn)
             {
-                run_product_nonfinite(kn, (unsigned)vf_range(r, 1, 6), (unsigned)vf_range(r, 1, 6), (unsigned)vf_range(r, 1, 6), (int)vf_below(r, 2), r);
+                run_product_nonfinite(kn, (unsigned)vf_range(r, 1, 6), (unsigned)vf_range(r, 1, 6), (unsigned)vf_range(r, 1, 6), (int)vf_below(r, 3), r);
                 run_product_nonfinite(kn, d[0], d[1], d[2], (int)vf_below(r, 2), r);
             }
         }
